@@ -46,7 +46,7 @@ def check(ck):
               "the step's own key at its own level (nested compartments "
               'descend with their part of the flow), so that a store-built '
               'engine, a move and a division find the dependencies again',
-              c16.r16_8_paths)
+              c16.r16_8_paths, c16.r16_6)
 
 
 def _loop_of(x, stop):
@@ -273,9 +273,9 @@ def r05_3(ck):
                        'again')
             apps = [x for x in A.calls_in(inner, 'append')
                     if A.is_name(A.call_receiver(x), lst)]
-            oka = bool(apps) and cfg.must_pass(
-                cn, cfg.loops[id(inner)]['header'],
-                {cfg.node(x) for x in apps})
+            via = {cfg.node(x) for x in apps}
+            oka = bool(apps) and (cn in via or cfg.must_pass(
+                cn, cfg.loops[id(inner)]['header'], via))
             ck.require(oka, 'R05.3', f, apps[0] if apps else c,
                        'every started step is queued for application',
                        'a started step update is not queued', c)
